@@ -216,6 +216,8 @@ def run_txt(case):
         out = [[k, [float(x) for x in np.ravel(v)], list(np.shape(v))] for k, v in back.items()]
     except ValueError:
         out = "ValueErr"
+    except TypeError:
+        out = "TypeErr"      # not in the model's error enum: the tie and the oracle report it
     finally:
         path.unlink()
     return {"file": text, "back": out}
@@ -425,6 +427,8 @@ def coq_txt(case, res):
     toks = [t for ln in lines[1:] for t in ln.split("#")[0].split()]
     qtab = ctab_parse(toks)
     back = res["back"]
+    if back == "TypeErr":
+        return "false"       # the model never raises a TypeError
     if not isinstance(back, str) and any(len(shp) != 1 for _, _, shp in back):
         return "false"       # the model's arrays are one-dimensional
     cback = cres(back, lambda b: clist(
